@@ -43,14 +43,25 @@ func sumI64(xs []int64) int64 {
 func genTxbUnit(g *Gen) {
 	r := g.Rng
 	// unit ops are independent: start a new history every few ops so that a failing one has a short replay
-	nUnit := 0
+	// the selector ops (which have a spec column: the k largest) are emitted first
+	type bufOp struct{ class, line string }
+	var first, rest []bufOp
 	uop := func(class string, format string, a ...interface{}) {
-		if nUnit%8 == 0 {
-			g.Reset()
+		o := bufOp{class, fmt.Sprintf(format, a...)}
+		if strings.HasPrefix(format, "topk ") {
+			first = append(first, o)
+		} else {
+			rest = append(rest, o)
 		}
-		nUnit++
-		g.Op(class, format, a...)
 	}
+	defer func() {
+		for i, o := range append(first, rest...) {
+			if i%8 == 0 {
+				g.Reset()
+			}
+			g.Op(o.class, "%s", o.line)
+		}
+	}()
 	amounts := func(n int, shape string, lo, hi int64) []int64 {
 		xs := make([]int64, n)
 		for i := range xs {
@@ -156,7 +167,7 @@ func genTxbUnit(g *Gen) {
 		uop("pipe-small", "pipe %d %s", 1+int64(r.Intn(200)), joinI64(xs))
 	}
 	// greedy subset on short lists: random, ties, coins larger than the target, exact sums
-	for i := 0; i < g.Scale(1200, 60000); i++ {
+	for i := 0; i < g.Scale(1200, 40000); i++ {
 		n := r.Intn(10)
 		var xs []int64
 		cls := "opt-random"
@@ -395,8 +406,14 @@ func (t *txbGen) fanout(w string, n int, lo, hi int64) bool {
 	l.nTx++
 	x := &gTx{name: fmt.Sprintf("T%d", l.nTx), ins: []gCoin{*src}}
 	rest := src.amt
+	// distinct amounts: which of two equal coins the wallet takes depends on transaction-hash order
+	delta := (hi - lo) / int64(n)
+	if delta < 1 {
+		delta = 1
+	}
+	slots := l.r.Perm(n)
 	for i := 0; i < n; i++ {
-		a := lo + l.r.Int63n(hi-lo+1)
+		a := lo + int64(slots[i])*delta + l.r.Int63n(delta)
 		x.outs = append(x.outs, fmt.Sprintf("%s:%d", l.someAddr(w), a))
 		rest -= a
 	}
@@ -884,6 +901,7 @@ func (t *txbGen) burst() {
 		}
 	}
 	l.op("judge", "judge")
+	l.op("sums", "sums")
 	// release some of the outstanding drafts again (signing fails), so that later requests find funds
 	if t.drafts > 0 && r.Intn(2) == 0 {
 		for i := 0; i < 1+r.Intn(4); i++ {
@@ -934,10 +952,12 @@ func genTxbHistory(g *Gen, kind string) {
 			l.op("auto-overfull", "auto %s 0 0 - - 0 %s:%d", w, l.stranger(), topk+(tot-topk)/2)
 			l.op("auto-k-inputs", "auto %s 0 0 - - 0 %s:%d", w, l.stranger(), topk-topk/50)
 			l.op("judge", "judge")
+			l.op("sums", "sums")
 			l.op("signfail", "signfail 1")
 			l.op("signfail", "signfail 2")
 			l.op("auto-k-inputs", "est %s 2000000 0 - - 0 %s:%d", w, l.stranger(), topk-topk/40)
 			l.op("judge", "judge")
+			l.op("sums", "sums")
 		}
 	}
 	steps := 6 + g.Rng.Intn(g.Scale(14, 30))
@@ -972,7 +992,7 @@ func genTxbHistory(g *Gen, kind string) {
 
 func genTxb(g *Gen) {
 	genTxbUnit(g)
-	n := g.Scale(70, 2500)
+	n := g.Scale(70, 1400)
 	for h := 0; h < n; h++ {
 		kind := ""
 		switch {
